@@ -14,6 +14,18 @@ KEYS = [("1", ("n", 1.0)), ("1.0", ("n", 1.0)), ("0", ("n", 0.0)), ("-0", ("n", 
 NEAR = [("0.3", ("n", 0.3)), ("0.1+0.2", ("n", 0.1 + 0.2))]
 VALS = [("10", 10.0), ('"v"', "v"), ("NULL", None), ("TRUE", True), ("7.5", 7.5)]
 EPS = 2.220446049250313e-16
+# boundary keys: whole numbers at and beyond 2^53 / 2^63 / the i64 and u64 ranges, huge and tiny magnitudes, halves,
+# strings that print like other keys or share a long prefix (any normalisation of a key that conflates two of them shows)
+WIDE = [("9007199254740992", ("n", 2.0 ** 53)), ("9007199254740994", ("n", 2.0 ** 53 + 2)), ("9223372036854775808", ("n", 2.0 ** 63)),
+        ("10000000000000000000", ("n", 1e19)), ("20000000000000000000", ("n", 2e19)), ("-10000000000000000000", ("n", -1e19)),
+        ("-20000000000000000000", ("n", -2e19)), ("18446744073709551616", ("n", 2.0 ** 64)), ("4294967296", ("n", 2.0 ** 32)),
+        ("4294967297", ("n", 2.0 ** 32 + 1)), ("2147483648", ("n", 2.0 ** 31)), ("-2147483649", ("n", -2.0 ** 31 - 1)),
+        ("1" + "0" * 30, ("n", float("1" + "0" * 30))), ("2" + "0" * 30, ("n", float("2" + "0" * 30))), ("1.5", ("n", 1.5)), ("2.5", ("n", 2.5)), ("-1", ("n", -1.0)), ("-1.5", ("n", -1.5)),
+        ("0.000001", ("n", 1e-6)), ("0.000002", ("n", 2e-6)),
+        ('"TRUE"', ("s", "TRUE")), ('"NULL"', ("s", "NULL")), ('"0"', ("s", "0")), ('" 1"', ("s", " 1")), ('"1.0"', ("s", "1.0")),
+        ('"abcdefghijklmnopqrstuvwxyz0123456789-A"', ("s", "abcdefghijklmnopqrstuvwxyz0123456789-A")),
+        ('"abcdefghijklmnopqrstuvwxyz0123456789-B"', ("s", "abcdefghijklmnopqrstuvwxyz0123456789-B")),
+        ('"a"', ("s", "a")), ('"A"', ("s", "A")), ('"é"', ("s", "é")), ('"e"', ("s", "e"))]
 
 
 def lang_equal(a, b):
@@ -115,7 +127,9 @@ class PROP(PropCheck):
         "evaluator model tied to the code by K3; Python ideal map keyed by the language's own equality as the direct oracle",
     ]
     rule = ("histories of MAP_INSERT / MAP_GET / MAP_CONTAINS_KEY / size of MAP_KEYS and MAP_VALUES over two maps, keys from "
-            "{1, 1.0, 0, -0, \"1\", TRUE, NULL, 0.5, \"\", FALSE, 2} (equal-but-differently-written keys included) and 5 values: all histories "
+            "{1, 1.0, 0, -0, \"1\", TRUE, NULL, 0.5, \"\", FALSE, 2} (equal-but-differently-written keys included) and 5 values, plus histories over "
+            "small pools of boundary keys (whole numbers around 2^31, 2^32, 2^53, 2^63, 2^64, +-1e19, 1e30, halves, strings that print like "
+            "other keys or share a long prefix): all histories "
             "of length <= 2 (quick) / <= 3 (thorough) over a reduced alphabet, random histories to length 12 (quick) / 40 (thorough); "
             "non-map first arguments. non-trivial = distinct history with >= 2 operations on the same map")
 
@@ -150,6 +164,11 @@ class PROP(PropCheck):
                 out.append(Case(program(list(h) + [("size", "m1")]), meta={"ops": list(h) + [("size", "m1")]}))
         for _ in range((500 if tier == "quick" else 12000) * scale):
             ops = [self.gen_op(rng) for _ in range(rng.randint(2, 12 if tier == "quick" else 40))]
+            out.append(Case(program(ops), meta={"ops": ops}))
+        for _ in range((250 if tier == "quick" else 6000) * scale):
+            # a small pool per history (boundary keys, with a few ordinary ones) so that the same few keys meet on one map
+            pool = rng.sample(WIDE, rng.randint(2, 4)) + rng.sample(KEYS, rng.randint(0, 2))
+            ops = [self.gen_op(rng, pool) for _ in range(rng.randint(3, 12 if tier == "quick" else 30))]
             out.append(Case(program(ops), meta={"ops": ops}))
         for _ in range(20 * scale):
             ops = [self.gen_op(rng, KEYS + NEAR) for _ in range(rng.randint(2, 10))]
